@@ -35,6 +35,12 @@ Proof. split; reflexivity. Qed.
 Example check_consts_agree : Gen.check_consts_src = [2; 2; 34; 8; 32; 8; 1; 2; 0; 4; 16].
 Proof. reflexivity. Qed.
 
+(* the IPSECKEY rows, one per gateway type, as read from Ipseckey::parse /
+   IpseckeyGateway::{parse, compose_rdata} *)
+Example ipseckey_src_agrees :
+  Gen.ipseckey_src = map (fun g => (g, ipseckey_schema g)) [0; 1; 2; 3].
+Proof. reflexivity. Qed.
+
 Definition memN (t : N) (l : list N) : bool := existsb (N.eqb t) l.
 
 (* the rows plus the irregular types are exactly the types of AllRecordData *)
